@@ -48,7 +48,7 @@ NextAlg ==
 NextLfsr ==
   /\ Mode = "lfsr" /\ d < MaxD
   /\ reg' = Shift1(reg) /\ d' = d + 1
-  /\ (d' % 8 = 0 => PrintT(<<"XD", d', reg'>>))
+  /\ PrintT(<<"XD", d', reg'>>)
   /\ UNCHANGED <<a, b>>
 
 Next == NextAlg \/ NextLfsr
